@@ -180,9 +180,7 @@ func checkCase(c Case) (out evid.Outcome) {
 		s.cookie, s.rawCookie, s.missing = ctx.Cookie("ck"), ctx.Cookie("raw"), ctx.Cookie("nosuch")
 		s.cookie2 = ctx.Cookie("ck") // reading is repeatable
 		// so is reading the query, whatever the caller did with a returned list
-		for i := range s.strs {
-			s.strs[i] = "overwritten-by-caller"
-		}
+		// (the returned list is not written to: who owns it is not said)
 		s.q2, s.strs2 = ctx.Query("k"), ctx.QueryStrings("k")
 		s.strs = ctx.QueryStrings("k")
 		_ = ctx.Params()
@@ -383,7 +381,10 @@ func checkCase(c Case) (out evid.Outcome) {
 	if present {
 		wantTrim, wantTrimD = strings.TrimSpace(sent), strings.TrimSpace(sent)
 	}
-	if s.trim != wantTrim || s.trimd != wantTrimD {
+	if present && strings.TrimSpace(sent) == "" && s.trim == "" && (s.trimd == "" || s.trimd == c.DefS) {
+		// a value of blanks only: "present, returned trimmed" (empty) and "empty
+		// after trimming, so the default" are both readings of the rule
+	} else if s.trim != wantTrim || s.trimd != wantTrimD {
 		return evid.Fail("query-trim", "QueryTrim = %q / with default(%q) %q; want %q / %q; %s", s.trim, c.DefS, s.trimd, wantTrim, wantTrimD, desc)
 	}
 	if !present {
